@@ -26,6 +26,7 @@ type Clause struct {
 	GhostVar   string // ghost assignment target
 	Props      string // package invariant: the properties whose checks it is in force for ("" = all)
 	Optional   bool   // anchored clause that may match no statement
+	LoopVar    string // loop named by a variable it assigns (`loop assigning(v) ...`)
 }
 
 type FuncContract struct {
@@ -47,6 +48,8 @@ type FuncContract struct {
 	Line        int
 	Used        bool
 	MergedFrom  *FuncContract // a caller package's trusted additions merged into this copy
+	NamedLoopClauses []*Clause // invariants on loops named by an assigned variable, not yet given an ordinal
+	loopsResolved bool
 }
 
 type GhostFunc struct {
@@ -130,12 +133,12 @@ var (
 	reGhostVar  = regexp.MustCompile(`^ghost\s+var\s+(\w+)\s+([^=]+?)(\s*=\s*(.*))?$`)
 	reClauseProps = regexp.MustCompile(`^\((C\d+(?:\s+C\d+)*)\)\s*`)
 	reLabel     = regexp.MustCompile(`^\[([\w\-.#]+)\]\s*`)
-	reLoop      = regexp.MustCompile(`^loop\s+(\d+)\s+invariant\s*`)
+	reLoop      = regexp.MustCompile(`^loop\s+(\d+|assigning\(\w+\))\s+invariant\s*`)
 	reAtCall    = regexp.MustCompile(`^(at|after)\s+call\s+(\S+)\s+#(\d+|\*|\?)\s+(assert|ghost|assume)\s*`)
 	reAtReturn  = regexp.MustCompile(`^at\s+return\s+#?(\d+|\*)\s+(?:inscope\((\w+)\)\s+)?(assert|ghost)\s*`)
 	reAtAssign  = regexp.MustCompile(`^at\s+assign\s+(\w+)\s+#(\d+|\*)\s+(assert|ghost|assume)\s*`)
 	reAtEntry   = regexp.MustCompile(`^at\s+entry\s+(ghost|assume)\s*`)
-	reAtLoop    = regexp.MustCompile(`^at\s+loop\s+(\d+)\s+(body|exit|init)\s+(assert|ghost|assume)\s*`)
+	reAtLoop    = regexp.MustCompile(`^at\s+loop\s+(\d+|assigning\(\w+\))\s+(body|exit|init)\s+(assert|ghost|assume)\s*`)
 )
 
 var clauseKeywords = []string{"guarded(", "guarded ", "requires", "ensures", "assigns", "loop ", "at ", "after ", "safe", "opt ", "func ", "trusted ", "ghost ", "spec ", "axiom", "pure ", "mode ", "props ", "invariant", "establishes ", "noinv"}
@@ -418,8 +421,15 @@ func ParseContractFile(path, pkgPath string) (*PkgContracts, error) {
 				if err != nil {
 					return nil, err
 				}
-				c.LoopN, _ = strconv.Atoi(m[1])
-				cur.Invariants[c.LoopN] = append(cur.Invariants[c.LoopN], c)
+				if strings.HasPrefix(m[1], "assigning(") {
+					// the loop is named by a variable it assigns (resolved to an ordinal when the function is bound):
+					// stable when loops are added or removed elsewhere in the function
+					c.LoopVar = strings.TrimSuffix(strings.TrimPrefix(m[1], "assigning("), ")")
+					cur.NamedLoopClauses = append(cur.NamedLoopClauses, c)
+				} else {
+					c.LoopN, _ = strconv.Atoi(m[1])
+					cur.Invariants[c.LoopN] = append(cur.Invariants[c.LoopN], c)
+				}
 			case reAtCall.MatchString(t):
 				m := reAtCall.FindStringSubmatch(t)
 				c, err := anchoredClause(m[4], t[len(m[0]):], mkClause)
@@ -481,7 +491,11 @@ func ParseContractFile(path, pkgPath string) (*PkgContracts, error) {
 					return nil, err
 				}
 				c.AnchorKind = "loop" + m[2]
-				c.LoopN, _ = strconv.Atoi(m[1])
+				if strings.HasPrefix(m[1], "assigning(") {
+					c.LoopVar = strings.TrimSuffix(strings.TrimPrefix(m[1], "assigning("), ")")
+				} else {
+					c.LoopN, _ = strconv.Atoi(m[1])
+				}
 				cur.Anchored = append(cur.Anchored, c)
 			default:
 				return nil, fail(fmt.Errorf("unknown clause: %s", t))
